@@ -85,3 +85,30 @@ func (v *FnV) escapeClosures(st *State, args []Value) {
 		}
 	}
 }
+
+// knownDynType returns the concrete type of an interface value term of the form
+// (mkval <tag> ...), i.e. one that was boxed from a concrete value in this activation.
+func (v *FnV) knownDynType(term string) types.Type {
+	const p = "(mkval "
+	if len(term) <= len(p) || term[:len(p)] != p {
+		return nil
+	}
+	tag := 0
+	i := len(p)
+	for i < len(term) && term[i] >= '0' && term[i] <= '9' {
+		tag = tag*10 + int(term[i]-'0')
+		i++
+	}
+	if tag == 0 {
+		return nil
+	}
+	for _, tt := range v.c.tagTypes {
+		if v.c.tagOf(tt) == tag {
+			if tt == sentinelType {
+				return nil
+			}
+			return tt
+		}
+	}
+	return nil
+}
